@@ -94,10 +94,10 @@ let precq_check line =
 
 let dispatch mode line =
   match mode with
-  | "tsc" -> tsc line
+  | "tsc" | "tscd" -> tsc line
   | "dur" -> dur line
   | "prec" -> prec line
-  | "tsc.sb" -> tsc_check line
+  | "tsc.sb" | "tscd.sb" -> tsc_check line
   | "dur.sb" -> dur_check line
   | "prec.sb" -> prec_check line
   | "precq" -> precq line
